@@ -158,7 +158,9 @@ FormAllowed(ev) ==
     [] ev.cls = "nulltest" ->
          \/ ev.verdict = "reject"
          \/ IsTaintedPtr(ev.x)                               \* the permitted null test
-         \/ ev.rk \in Wrapped                                \* e.g. !tainted_volatile pointer: a hint
+         \/ ev.rk \in Wrapped \ {"V"}                        \* e.g. !tainted_volatile pointer: a hint (a statement
+                                                             \* form - if, while, ?:, bool b = ... - yields no value:
+                                                             \* accepting it means the operand became a plain bool)
     [] ev.cls = "conv" -> ev.verdict = "reject"              \* accepting the conversion is the leak
     [] ev.cls = "rangecmp" -> ev.verdict = "reject" \/ ev.rk \in {"IH", "BH"}
     [] ev.cls = "expr" ->
